@@ -109,9 +109,65 @@ func run(c *core.Ctx) int {
 	}
 	handle(cases, res, "seq")
 	handle(rcases, rres, "conc")
+	// WASI descriptors / stdio part
+	nw := c.N(2500, 60000)
+	var wcases, wrcases []json.RawMessage
+	for i := 0; i < nw; i++ {
+		wcases = append(wcases, core.J(gcase{Seed: rng.U64()}))
+	}
+	for i := 0; i < c.N(80, 2000); i++ {
+		wrcases = append(wrcases, core.J(gcase{Seed: rng.U64(), Conc: true}))
+	}
+	handleW := func(cs []json.RawMessage, rs []core.CaseResult, mode string) {
+		for _, r := range rs {
+			if r.Crash != nil {
+				switch r.Crash.Kind {
+				case "timeout":
+					c.Inconclusive("watchdog")
+					continue
+				case "race":
+					logb, _ := os.ReadFile(r.Crash.Log)
+					for key, rep := range core.RaceReports(logb) {
+						c.Violate("race:"+strings.ReplaceAll(key, "github.com/tetratelabs/wazero", "wazero"), rep, map[string]any{"batch_last_case": cs[r.Index], "report": rep})
+					}
+				default:
+					c.Violate("crash:wasi:"+r.Crash.Kind+":"+core.Trunc(strings.Join(strings.Fields(r.Crash.Detail), "_"), 80), r.Crash.Detail, map[string]any{"case": cs[r.Index], "crash": r.Crash})
+					continue
+				}
+			}
+			if r.Out == nil {
+				continue
+			}
+			var wr wasiResult
+			if json.Unmarshal(r.Out, &wr) != nil {
+				c.Inconclusive("bad-child-output")
+				continue
+			}
+			evals++
+			c.Count("wasi_groups_"+mode, 1)
+			c.Count("wasi_steps", int64(wr.Steps))
+			c.Count("wasi_projections_compared", int64(wr.Compared))
+			for k, v := range wr.Ops {
+				c.Count("wasi_op_"+k, int64(v))
+			}
+			c.Distinct("shapes", wr.Shape)
+			if wr.Sig != "" {
+				c.Violate(wr.Sig, wr.Detail, map[string]any{"case": cs[r.Index], "mode": mode})
+			} else if wr.Compared > 0 {
+				c.Distinct("groups", fmt.Sprintf("wasi-%s%d", mode, r.Index))
+			}
+			if len(wr.Sample) > 0 && r.Index%800 == 0 {
+				c.Sample(map[string]any{"case": cs[r.Index], "shape": wr.Shape, "wasi_trace_head_instance0": wr.Sample})
+			}
+		}
+	}
+	handleW(wcases, core.RunCases(c, "wasi", wcases, core.ChildOpts{Batch: 60, TimeoutS: 900}), "seq")
+	if rb := os.Getenv("VCHECK_RACE_BIN"); rb != "" {
+		handleW(wrcases, core.RunCases(c, "wasi", wrcases, core.ChildOpts{Bin: rb, Batch: 20, TimeoutS: 900, Procs: 4, Env: []string{"GORACE=halt_on_error=0 exitcode=0"}}), "conc")
+	}
 	c.Assume("the harness's own host functions keep per-instance state, so any coupling observed comes from wazero")
 	return c.Finish(evals, int64(c.DistinctN("groups")),
-		"PRNG groups of 2-5 unlinked instances (same compiled module / two different modules; one runtime / two runtimes sharing a CompilationCache; interpreter or compiler) running a PRNG-interleaved script of calls and host-side memory/global writes; each instance's trace (results, traps, host log, memory/global/table digests) must equal the trace of the projected script on a fresh lone instance; concurrent variant under -race; non-trivial = at least one projection compared")
+		"(a) PRNG groups of 2-5 unlinked instances of a WASI guest, each with its own mounted directory, stdin and stdout/stderr buffers, running interleaved descriptor/stdio scripts (path_open, fd_close, fd_write, fd_read, fd_seek, fd_renumber, fd_fdstat_get, stdio); (b) PRNG groups of 2-5 unlinked instances (same compiled module / two different modules; one runtime / two runtimes sharing a CompilationCache; interpreter or compiler) running a PRNG-interleaved script of calls and host-side memory/global writes; each instance's trace (results, traps, host log, memory/global/table digests) must equal the trace of the projected script on a fresh lone instance; concurrent variant under -race; non-trivial = at least one projection compared")
 }
 
 // mutating ops of interest for the evidence
@@ -123,6 +179,9 @@ type mstep struct {
 }
 
 func child(mode string, in json.RawMessage) any {
+	if mode == "wasi" {
+		return wasiChild(in)
+	}
 	var gc gcase
 	json.Unmarshal(in, &gc)
 	r := core.NewRng(int64(gc.Seed), 3)
